@@ -151,7 +151,7 @@ pub struct BuilderArea {
     addr_map:  HashMap<usize, usize>,
     /// C04 oracle, per cache slot: structural key -> address
     tok_addr:  HashMap<(usize, u32, String), usize>,
-    node_addr: HashMap<(usize, u32, Vec<usize>), usize>,
+    node_addr: HashMap<(usize, u32, String), usize>,
     addr_dump: HashMap<usize, String>,
     threshold: usize,
     faulted:   bool,
@@ -224,10 +224,14 @@ impl BuilderArea {
                 cx.fail("C04", format!("one allocation stands for {} and {}", prev, d));
             }
         } else {
-            self.addr_dump.insert(a, d);
+            self.addr_dump.insert(a, d.clone());
         }
         if child_addrs.len() <= self.threshold {
-            let key = (slot, g.kind().0, child_addrs);
+            // "equal kind and equal children" is structural: the key is the node's dump (kinds, nesting, token texts),
+            // not the children's addresses -- a child that is itself too big for the cache is a different allocation
+            // each time, and the small node around it must still be shared
+            let _ = child_addrs;
+            let key = (slot, g.kind().0, d.clone());
             match self.node_addr.get(&key) {
                 Some(prev) if *prev != a => {
                     cx.count("c04.small_node_not_shared");
@@ -246,7 +250,165 @@ impl BuilderArea {
     }
 }
 
+#[derive(Clone, Debug)]
+enum CEv {
+    Start(u32),
+    Tok(u32, String),
+    Stok(u32),
+    Fin,
+}
+
+fn parse_compact(evs: &str) -> Option<Vec<CEv>> {
+    let mut v = vec![];
+    for w in evs.split(',') {
+        let (h, r) = w.split_at(1.min(w.len()));
+        v.push(match h {
+            "s" => CEv::Start(r.parse().ok()?),
+            "k" => CEv::Stok(r.parse().ok()?),
+            "f" if r.is_empty() => CEv::Fin,
+            "t" => {
+                let (k, hx) = r.split_once(':')?;
+                CEv::Tok(k.parse().ok()?, unhex(hx)?)
+            }
+            _ => return None,
+        });
+    }
+    Some(v)
+}
+
+fn apply_compact<'c, 'i>(b: &mut GreenNodeBuilder<'c, 'i, K, BoxI>, evs: &[CEv]) {
+    for e in evs {
+        match e {
+            CEv::Start(k) => b.start_node(K(*k)),
+            CEv::Tok(k, t) => b.token(K(*k), t),
+            CEv::Stok(k) => b.static_token(K(*k)),
+            CEv::Fin => b.finish_node(),
+        }
+    }
+}
+
+fn compact_reference(evs: &[CEv]) -> Option<RefTree> {
+    let mut stack: Vec<(u32, Vec<RefTree>)> = vec![];
+    let mut done: Vec<RefTree> = vec![];
+    for e in evs {
+        match e {
+            CEv::Start(k) => stack.push((*k, vec![])),
+            CEv::Tok(k, t) => stack.last_mut()?.1.push(RefTree::Tok(*k, t.clone())),
+            CEv::Stok(k) => stack.last_mut()?.1.push(RefTree::Tok(*k, static_of(*k)?.to_string())),
+            CEv::Fin => {
+                let (k, cs) = stack.pop()?;
+                let n = RefTree::Node(k, cs);
+                match stack.last_mut() {
+                    Some(top) => top.1.push(n),
+                    None => done.push(n),
+                }
+            }
+        }
+    }
+    if stack.is_empty() && done.len() == 1 {
+        done.pop()
+    } else {
+        None
+    }
+}
+
 impl BuilderArea {
+    /// a whole (valid, fault-free) tree built in one go through one of the other constructors of the builder:
+    /// `with_cache(&mut cache)` (borrowed cache, `finish` hands back no cache), `with_interner(&mut interner)`
+    /// (fresh cache over a borrowed interner), `from_interner(interner)` (fresh owned cache)
+    fn wbuild(&mut self, how: &str, slot: usize, evs: &str, cx: &mut Ctx<'_>) -> String {
+        let Some(evs) = parse_compact(evs) else { return "bad-op".into() };
+        let Some(rt) = compact_reference(&evs) else { return "bad-op".into() };
+        cx.count(&format!("op.wbuild.{}", how));
+        let mut cache = self.caches[slot].take().unwrap();
+        let built: Result<GreenNode, String> = match how {
+            "with_cache" => catch(std::panic::AssertUnwindSafe(|| {
+                let mut b: GreenNodeBuilder<'_, '_, K, BoxI> = GreenNodeBuilder::with_cache(&mut cache);
+                apply_compact(&mut b, &evs);
+                let (g, c) = b.finish();
+                if c.is_some() {
+                    panic!("finish returned a cache although the builder only borrowed one");
+                }
+                g
+            })),
+            "with_interner" | "from_interner" => {
+                self.forget_sharing(slot);
+                let Some(mut i) = cache.into_interner() else {
+                    return "bad-op".into();
+                };
+                if how == "with_interner" {
+                    let r = catch(std::panic::AssertUnwindSafe(|| {
+                        let mut b: GreenNodeBuilder<'_, '_, K, BoxI> = GreenNodeBuilder::with_interner(&mut i);
+                        apply_compact(&mut b, &evs);
+                        let (g, c) = b.finish();
+                        if c.is_none() {
+                            panic!("finish returned no cache although the builder owned one");
+                        }
+                        g
+                    }));
+                    cache = NodeCache::from_interner(i);
+                    r
+                } else {
+                    let mut out: Option<NodeCache<'static, BoxI>> = None;
+                    let backend = i.backend.clone();
+                    let r = catch(std::panic::AssertUnwindSafe(|| {
+                        let mut b: GreenNodeBuilder<'static, 'static, K, BoxI> = GreenNodeBuilder::from_interner(i);
+                        apply_compact(&mut b, &evs);
+                        let (g, c) = b.finish();
+                        out = c;
+                        g
+                    }));
+                    cache = match out {
+                        Some(c) => c,
+                        None => {
+                            cx.fail("C04", "finish returned no cache although the builder owned one".into());
+                            NodeCache::from_interner(make_interner(&backend).unwrap())
+                        }
+                    };
+                    r
+                }
+            }
+            _ => {
+                self.caches[slot] = Some(cache);
+                return "bad-op".into();
+            }
+        };
+        let ans = match built {
+            Ok(g) => {
+                let n = self.greens.len();
+                let d = dump_green(&g, cache.interner());
+                let rd = rt.dump();
+                if rd != d {
+                    cx.fail("C01", format!("tree {} differs from the events' tree {}", d, rd));
+                }
+                let mut want = String::new();
+                rt.text(&mut want);
+                let mut got = String::new();
+                green_text(&g, cache.interner(), &mut got);
+                if want != got {
+                    cx.fail("C01", format!("text {} differs from the input text {}", hex(&got), hex(&want)));
+                }
+                if u32::from(g.text_len()) as usize != want.len() {
+                    cx.fail("C01", format!("text_len {:?} but input has {} bytes", g.text_len(), want.len()));
+                }
+                self.reftrees.push(Some(rt));
+                self.check_sharing(&g, slot, cache.interner(), cx);
+                self.greens.push((g, slot, d.clone()));
+                format!("g{} {}", n, d)
+            }
+            Err(m) => {
+                cx.fail("C01", format!("building a valid tree through `{}` panicked: {}", how, m));
+                "panic".into()
+            }
+        };
+        if how == "with_interner" {
+            // the cache of that build is gone
+            self.forget_sharing(slot);
+        }
+        self.caches[slot] = Some(cache);
+        ans
+    }
+
     /// a cache slot was re-created: its sharing expectations start afresh
     pub fn forget_sharing(&mut self, slot: usize) {
         self.tok_addr.retain(|k, _| k.0 != slot);
@@ -274,6 +436,15 @@ impl Area for BuilderArea {
                 }
                 None => "bad-op".into(),
             },
+            ["wbuild", how, c, evs] => {
+                let slot = c.strip_prefix('c').and_then(|s| s.parse::<usize>().ok());
+                match slot {
+                    Some(slot) if slot < self.caches.len() && self.caches[slot].is_some() && self.builder.is_none() => {
+                        self.wbuild(how, slot, evs, cx)
+                    }
+                    _ => "bad-op".into(),
+                }
+            }
             ["builder", c] => {
                 let slot = c.strip_prefix('c').and_then(|s| s.parse::<usize>().ok());
                 match slot {
